@@ -3,12 +3,13 @@
 From Coq Require Import ZArith.
 From OCI Require Import Machine Checkers.
 From OCI.proofs Require Import ArithOk Trace InvKnown ChkKnown IterBase ChkIter ChkAll.
+From OCI.proofs Require Import GapFree.
 Open Scope N_scope.
 
-Check all_C12 : forall e, src_env e -> forall progs, wf_progs progs -> forall sched,
+Check all_C12 : forall e, src_env e -> fused e -> forall progs, wf_progs progs -> forall sched,
   nowrap (c_labels (exec e (init progs) sched)) ->
   check_prop 12 e (c_trace (exec e (init progs) sched)) (c_labels (exec e (init progs) sched)) = true.
-Theorem c12_loops : forall e, src_env e -> forall progs, wf_progs progs -> forall sched,
+Theorem c12_loops : forall e, src_env e -> fused e -> forall progs, wf_progs progs -> forall sched,
   nowrap (c_labels (exec e (init progs) sched)) ->
   check_prop 12 e (c_trace (exec e (init progs) sched)) (c_labels (exec e (init progs) sched)) = true.
 Proof. exact all_C12. Qed.
@@ -19,7 +20,7 @@ Print Assumptions c12_loops.
     operation and its neutral element gives the sequential fold of the source *)
 From Coq Require Import List.
 From OCI.proofs Require Import Fold.
-Theorem c12_fold_combination : forall e, src_env e -> forall progs, wf_progs progs -> forall sched,
+Theorem c12_fold_combination : forall e, src_env e -> fused e -> forall progs, wf_progs progs -> forall sched,
   nowrap (c_labels (exec e (init progs) sched)) ->
   let tr := c_trace (exec e (init progs) sched) in
   let L := nodup Nat.eq_dec sched in
@@ -31,3 +32,18 @@ Theorem c12_fold_combination : forall e, src_env e -> forall progs, wf_progs pro
   mfold M op unit_ (map f (source_positions (e_len e))).
 Proof. exact fold_combination. Qed.
 Print Assumptions c12_fold_combination.
+
+(** the shape clause and the permanence of the end for every wrapped iterator, fused or not *)
+Theorem c12_loop_shape_any_iterator : forall e, iter_env e -> forall progs, wf_progs progs -> forall sched,
+  nowrap (c_labels (exec e (init progs) sched)) ->
+  chk_C12_shape (c_trace (exec e (init progs) sched)) = true /\ chk_C05 e (c_trace (exec e (init progs) sched)) = true.
+Proof. exact (fun e He progs Hp sched Hw => conj (iter_C12_shape e He progs Hp sched Hw) (iter_C05 e He progs Hp sched Hw)). Qed.
+Print Assumptions c12_loop_shape_any_iterator.
+
+(** a wrapped iterator that is not fused: the whole of C12, on every run on which the wrapped next() has not yet answered None although elements remain *)
+Theorem c12_loops_until_first_gap : forall e, iter_env e -> forall progs, wf_progs progs -> forall sched,
+  nowrap (c_labels (exec e (init progs) sched)) ->
+  gap_free e (s_calls (c_sh (exec e (init progs) sched))) ->
+  check_prop 12 e (c_trace (exec e (init progs) sched)) (c_labels (exec e (init progs) sched)) = true.
+Proof. exact iter_C12_until_gap. Qed.
+Print Assumptions c12_loops_until_first_gap.
